@@ -1016,7 +1016,7 @@ def run(ctx: core.Ctx):
                       {"case": small, "rule_sql": [rule_text(r) for r in small["rules"]],
                        "observed": rr, "expected_pairs": [[sorted(map(list, k)), v] for k, v in must.items()], "detail": what},
                       kind="concrete", match_info=failure_class(small, what))
-    if not concrete:
+    if not ctx.violations:  # no NEW concrete violation (none at all, or only ones a registered known finding describes)
         if broken:
             c, w = broken[0]
             ctx.violation("correspondence Blocking model <-> blocking.py no longer checks",
